@@ -112,7 +112,7 @@ Qed.
 Lemma in_class_rep_operand G a i z b ne : in_class G (Rep a i z b ne) = true ->
   in_class G (snd (rep_operand (Rep a i z b ne) b)) = true.
 Proof.
-  intros H. simpl in H. destruct ne; [discriminate H|].
+  intros H. simpl in H. apply andb_prop in H as [H _].
   apply andb_prop in H as [H Hb]. apply andb_prop in H as [Hp _].
   unfold rep_operand. cbn [attrs_of]. unfold plain_attrs in Hp.
   destruct (acts a); [|discriminate]. destruct (rsname a); [discriminate|]. exact Hb.
@@ -158,7 +158,7 @@ Proof.
     + repeat (apply andb_prop in H as [H ?]). destruct i; [auto|discriminate].
     + repeat (apply andb_prop in H as [H ?]). destruct i; [auto|discriminate].
   - repeat (apply andb_prop in H as [H ?]). destruct i; [auto|discriminate].
-  - destruct ne; [discriminate H|]. repeat (apply andb_prop in H as [H ?]). destruct i; [auto|discriminate].
+  - repeat (apply andb_prop in H as [H ?]). destruct i; [auto|discriminate].
   - destruct id; [|discriminate H]. repeat (apply andb_prop in H as [H ?]). destruct i; [auto|discriminate].
 Qed.
 
@@ -401,6 +401,33 @@ Proof.
   - injection H1 as <-. reflexivity.
 Qed.
 
+(* repetition with stop_on: the sentinel `ne` (NotAny(stop_on)) is tried before every round by try_parse (do_actions = False,
+   with pre-parse): by the induction hypothesis it answers Ok (the round goes on), a ParseException (the loop ends with what
+   was accumulated), Div or out-of-fuel: never a fatal exception, so try_parse's conversion is not exercised. *)
+Lemma rep_go_stop_ok e body ne d L foe : in_class G e = true -> in_class G body = true -> in_class G ne = true ->
+  (forall l acc, run (pparse f) (step_k e s d L (inr (l, RPR acc))) = Some (Ok l (PR (toks acc) (dict acc) (allnames acc) (rname acc) (modalr (attrs_of e))))) ->
+  forall n loc acc,
+  good (run (pparse f) (rep_go (step_k e s d L) foe e body (Some ne) s d n loc acc)) (peg_star_stop (ppeg f) n body ne loc (pr_as_list acc)).
+Proof.
+  intros He Hb Hne HK. destruct (in_class_plain e He) as [_ Hi].
+  induction n as [|n IHn]; intros loc acc; [reflexivity|].
+  cbn [rep_go peg_star_stop]. unfold check_ender, try_parse, call. cbn [run].
+  destruct (IH ne Hne loc false) as [N1 _]. unfold good in N1.
+  destruct (pparse f (mkargs ne s loc false true)) as [[nl nr|nx|]|]; simpl in N1.
+  - injection N1 as <-. rewrite Hi. rewrite skip_ignorables_nil. unfold call. cbn [run].
+    destruct (IH body Hb loc d) as [H1 _]. unfold good in H1.
+    destruct (pparse f (mkargs body s loc d true)) as [[l r|x|]|]; simpl in H1.
+    + injection H1 as <-. destruct (Nat.eqb l loc); [reflexivity|]. rewrite <- as_list_iadd. apply IHn.
+    + destruct (is_pe (xk x)) eqn:K; [|discriminate]. injection H1 as <-.
+      rewrite ?K. cbn [orb]. rewrite HK. reflexivity.
+    + injection H1 as <-. reflexivity.
+    + injection H1 as <-. reflexivity.
+  - destruct (is_pe (xk nx)) eqn:K; [|discriminate]. injection N1 as <-.
+    rewrite (is_pe_not_fatal _ K). cbn [andb]. rewrite ?K. cbn [orb]. rewrite HK. reflexivity.
+  - injection N1 as <-. reflexivity.
+  - injection N1 as <-. reflexivity.
+Qed.
+
 Lemma env_lookup id c : nth_error G id = Some c -> in_class G c = true.
 Proof.
   intros H. unfold env_in_class in HG. rewrite forallb_forall in HG. apply HG. eapply nth_error_In. exact H.
@@ -561,20 +588,44 @@ Proof.
       * injection H1 as <-. reflexivity.
       * injection H1 as <-. reflexivity.
   - (* repetition *)
-    destruct ne as [ne|]; [discriminate He|].
-    pose proof He as He'. simpl in He. apply andb_prop in He as [He Hb].
+    pose proof He as He'. simpl in He. apply andb_prop in He as [He Hne]. apply andb_prop in He as [He Hb].
+    destruct ne as [ne|].
+    + (* with stop_on *)
+      cbn [impl]. unfold check_ender, try_parse, call. cbn [run].
+      destruct (IH ne Hne L false) as [N1 _]. unfold good in N1.
+      destruct (pparse f (mkargs ne s L false true)) as [[nl nr|nx|]|]; simpl in N1.
+      * injection N1 as <-. cbn [run].
+        destruct (IH body Hb L d) as [H1 _]. unfold good in H1.
+        destruct (pparse f (mkargs body s L d true)) as [[l r|x|]|]; simpl in H1.
+        -- injection H1 as <-. apply rep_go_stop_ok; [exact He'|exact Hb|exact Hne|].
+           intros l0 acc. rewrite HK. reflexivity.
+        -- destruct (is_pe (xk x)) eqn:K; [|discriminate]. injection H1 as <-.
+           rewrite ?K. cbn [orb]. destruct z; cbn [andb].
+           ++ destruct (in_class_plain _ He') as [Hp _]. destruct (plain_inv _ Hp) as [_ Hn]. simpl in Hn.
+              rewrite HK. cbn [attrs_of]. rewrite Hn. reflexivity.
+           ++ rewrite fail_pe by exact K. unfold good. simpl. rewrite K. reflexivity.
+        -- injection H1 as <-. reflexivity.
+        -- injection H1 as <-. reflexivity.
+      * destruct (is_pe (xk nx)) eqn:K; [|discriminate]. injection N1 as <-.
+        rewrite (is_pe_not_fatal _ K). cbn [andb]. rewrite ?K. cbn [orb]. destruct z; cbn [andb].
+        -- destruct (in_class_plain _ He') as [Hp _]. destruct (plain_inv _ Hp) as [_ Hn]. simpl in Hn.
+           rewrite HK. cbn [attrs_of]. rewrite Hn. reflexivity.
+        -- rewrite fail_pe by exact K. unfold good. simpl. rewrite K. reflexivity.
+      * injection N1 as <-. reflexivity.
+      * injection N1 as <-. reflexivity.
+    + (* without stop_on *)
     cbn [impl]. unfold check_ender, call. cbn [run].
     destruct (IH body Hb L d) as [H1 _]. unfold good in H1.
     destruct (pparse f (mkargs body s L d true)) as [[l r|x|]|]; simpl in H1.
-    + injection H1 as <-. apply rep_go_ok; [exact He'|exact Hb|].
+    * injection H1 as <-. apply rep_go_ok; [exact He'|exact Hb|].
       intros l0 acc. rewrite HK. reflexivity.
-    + destruct (is_pe (xk x)) eqn:K; [|discriminate]. injection H1 as <-.
+    * destruct (is_pe (xk x)) eqn:K; [|discriminate]. injection H1 as <-.
       rewrite ?K. cbn [orb]. destruct z; cbn [andb].
-      * destruct (in_class_plain _ He') as [Hp _]. destruct (plain_inv _ Hp) as [_ Hn]. simpl in Hn.
-        rewrite HK. cbn [attrs_of]. rewrite Hn. reflexivity.
-      * rewrite fail_pe by exact K. unfold good. simpl. rewrite K. reflexivity.
-    + injection H1 as <-. reflexivity.
-    + injection H1 as <-. reflexivity.
+      -- destruct (in_class_plain _ He') as [Hp _]. destruct (plain_inv _ Hp) as [_ Hn]. simpl in Hn.
+         rewrite HK. cbn [attrs_of]. rewrite Hn. reflexivity.
+      -- rewrite fail_pe by exact K. unfold good. simpl. rewrite K. reflexivity.
+    * injection H1 as <-. reflexivity.
+    * injection H1 as <-. reflexivity.
   - discriminate He.
   - (* Forward *)
     destruct id as [id|]; [|discriminate He].
